@@ -284,3 +284,68 @@ def c19_iteragg(L, labels, n, begin, end, method, which, dim):
             if "time" not in g.dims or pd.Timestamp(g.time.values[0]) != coords[last]:
                 bad.append(f"window ending at {last}: time stamp")
     return {"violates": bool(bad), "bad": bad[:5], "n_got": len(got), "n_exp": len(exp)}
+
+
+# ------------------------------------------------------------------ C15
+def _pearson_meanfill(vals):
+    """vals: list with None for missing. Definition from the property statement."""
+    x = np.array([np.nan if v is None else float(v) for v in vals], dtype="float64")
+    X, Y = x[:-1].copy(), x[1:].copy()
+    pair = ~np.isnan(X) & ~np.isnan(Y)
+    if not pair.any() or np.isnan(X).all() or np.isnan(Y).all():
+        return 0.0
+    X[np.isnan(X)] = np.nanmean(X)
+    Y[np.isnan(Y)] = np.nanmean(Y)
+    sx, sy = X.std(), Y.std()
+    if sx == 0 or sy == 0:
+        return 0.0
+    return float(((X - X.mean()) * (Y - Y.mean())).mean() / (sx * sy))
+
+
+def c15_autocorr(kind, data, nodata=None, data2=None, layout=None):
+    from hdc.algo.ops.autocorr import autocorr_1d, autocorr, autocorr_tyx
+    ref = _pearson_meanfill(data)
+    out = {}
+    if kind == "accessor":
+        import xarray as xr
+        import hdc.algo  # noqa
+        if nodata is not None:
+            p0 = np.array([nodata if v is None else v for v in data], dtype="int16")
+            attrs = {"nodata": nodata}
+        else:
+            p0 = np.array([np.nan if v is None else v for v in data], dtype="float32")
+            attrs = {}
+        if layout == "tyx":
+            da = xr.DataArray(p0.reshape(-1, 1, 1), dims=("time", "y", "x"), attrs=attrs)
+        else:
+            da = xr.DataArray(p0.reshape(1, 1, -1), dims=("y", "x", "time"), attrs=attrs)
+        try:
+            got = float(np.asarray(da.hdc.algo.autocorr().values).reshape(-1)[0])
+        except Exception as e:  # noqa
+            return {"violates": True, "raised": f"{type(e).__name__}: {e}"[:200]}
+        return {"violates": not (abs(got - ref) <= 1e-5 * max(1.0, abs(ref))), "got": got, "expected": ref}
+    if kind == "int1d":
+        arr = np.array([nodata if v is None else v for v in data], dtype="int16")
+        got = [float(autocorr_1d(arr, nodata))]
+        refs = [ref]
+    elif kind == "float1d":
+        arr = np.array([np.nan if v is None else v for v in data], dtype="float64")
+        got = [float(autocorr_1d(arr))]
+        refs = [ref]
+    else:
+        if nodata is not None:
+            p0 = np.array([nodata if v is None else v for v in data], dtype="int16")
+            p1 = np.array(data2, dtype="int16")
+        else:
+            p0 = np.array([np.nan if v is None else v for v in data], dtype="float32")
+            p1 = np.array(data2, dtype="float32")
+        if kind == "yxt":
+            cube = np.stack([p0, p1]).reshape(1, 2, -1)
+            res = autocorr(cube, nodata) if nodata is not None else autocorr(cube)
+        else:
+            cube = np.stack([p0, p1], axis=1).reshape(-1, 1, 2)
+            res = autocorr_tyx(cube, nodata) if nodata is not None else autocorr_tyx(cube)
+        got = [float(res[0, 0]), float(res[0, 1])]
+        refs = [ref, _pearson_meanfill(data2)]
+    bad = [(g, r) for g, r in zip(got, refs) if not (abs(g - r) <= 1e-5 * max(1.0, abs(r)))]
+    return {"violates": bool(bad), "got": got, "expected": refs}
